@@ -97,6 +97,33 @@ func rulesC03(c *Ctx) {
 				}
 			}
 		}
+		if qT := c03QueueStruct(queue); qT != nil {
+			c03RingRebase(c, qT)
+			// the same two roles when the backlog is a type of its own: a method of it that takes a request is the enqueue, one
+			// that hands a request out is the dequeue
+			for _, f := range c.funcsWithLits(pJ) {
+				for _, call := range f.AllCalls(f.Body, false) {
+					sel, ok := ast.Unparen(call.Fun).(*ast.SelectorExpr)
+					if !ok || !f.IsField(sel.X, queue) {
+						continue
+					}
+					fn := f.Callee(call)
+					if fn == nil {
+						continue
+					}
+					sig := fn.Type().(*types.Signature)
+					root := f.Root()
+					switch {
+					case sig.Params().Len() == 1 && sig.Results().Len() == 0:
+						nApp++
+						c.Check(root.Obj != nil && root.Obj.Name() == "acceptRequest", f.Name()+":handlerQueue."+fn.Name(), f, call, "a request is handed to the queue only in acceptRequest")
+					case sig.Params().Len() == 0 && sig.Results().Len() >= 1 && namedOf(c03Deref(sig.Results().At(0).Type())) != nil:
+						nPop++
+						c.Check(root.Obj == haObj, f.Name()+":handlerQueue."+fn.Name(), f, call, "a request is taken from the queue only by the dispatcher, in handleAsync")
+					}
+				}
+			}
+		}
 		c.Pin("enqueue", nApp, 1)
 		c.Pin("dequeue", nPop, 1)
 	})
@@ -143,6 +170,14 @@ func rulesC03(c *Ctx) {
 						}
 						return (op == token.GTR && !a.Val) || (op == token.EQL && a.Val)
 					})
+					if !okE && c03QueueStruct(queue) != nil {
+						// the queue is a type of its own: "empty" is what its dequeue method reports by returning nil
+						okE = hasAtom(guards, func(a Atom) bool { return c03EmptyViaDequeue(c, f, g, a, queue) })
+						if !okE && f.Root().Obj == haObj && c.inFlightContext(f) != "" && hasAtom(guards, func(a Atom) bool { return c03MentionsQueue(f, a.E, queue) }) {
+							c.Undecided("handlerRunning=false:"+f.Name(), f, w.Stmt, "the backlog is kept in a type of its own and the flag is cleared under a test on it (guards: %s) that this rule cannot read as \"the queue is empty\"", atomsString(guards))
+							continue
+						}
+					}
 					c.Check(okE && f.Root().Obj == haObj && c.inFlightContext(f) != "", "handlerRunning=false:"+f.Name(), f, w.Stmt,
 						"the flag is cleared only by the dispatcher, under the lock, when the queue is empty (guards: %s)", atomsString(guards))
 				}
@@ -163,7 +198,7 @@ func rulesC03(c *Ctx) {
 		var deq *uifSite
 		for _, s := range c.uifSites(ha) {
 			s := s
-			if s.In == ha && len(s.Lit.FieldWrites(s.Lit.Body, queue, false)) > 0 {
+			if s.In == ha && (len(s.Lit.FieldWrites(s.Lit.Body, queue, false)) > 0 || c03CallsQueueMethod(s.Lit, queue)) {
 				deq = &s
 			}
 		}
@@ -592,6 +627,7 @@ func rulesC03(c *Ctx) {
 						// joined by counting tokens on a channel the goroutines send to: whether as many are received as were
 						// started is a matter of values, not of shape
 						counted := false
+						var tokCh types.Object
 						var sentTo []types.Object
 						// (the goroutine may call a local closure that does the sending)
 						for _, l := range holder.Root().AllLits() {
@@ -609,10 +645,27 @@ func rulesC03(c *Ctx) {
 								for _, o := range sentTo {
 									if holder.ObjOf(u.X) == o && hg.ReachableFrom(hg.VertexOf(gs))[hg.VertexOf(u)] {
 										counted = true
+										if tokCh == nil {
+											tokCh = o
+										}
 									}
 								}
 							}
 						})
+						if counted && tokCh != nil {
+							// the count can be decided when producers and the join are straight-line statements (or one range
+							// loop) of the function: tokens produced and tokens awaited as linear forms in the length of one slice
+							if prod, cons, okc := c03TokenCount(holder, hg, gs, tokCh); okc {
+								if prod.a == cons.a && prod.b == cons.b {
+									c.Ok("notify-on-the-callers-goroutine:"+holder.Name(), holder, gs, "the goroutines that send the notifications are joined by tokens on a channel: %s tokens are produced and %s awaited before the function returns", prod.String(), cons.String())
+									continue
+								}
+								if prod.a == cons.a && cons.b < prod.b {
+									c.Fail("notify-on-the-callers-goroutine:"+holder.Name(), holder, gs, "the notifying function awaits %s completion tokens but %s are produced (every producer, also one run on the caller's own goroutine, deposits one): it can return while a goroutine that sends a notification is still running, and the caller's next message overtakes that notification", cons.String(), prod.String())
+									continue
+								}
+							}
+						}
 						if counted {
 							c.Undecided("notify-on-the-callers-goroutine:"+holder.Name(), holder, gs, "the goroutines that send the notifications are joined by receiving tokens from a channel they send to: that as many tokens are awaited as goroutines were started is not decided here")
 							continue
@@ -817,4 +870,697 @@ func deepC03(c *Ctx) {
 		}
 		c.Pin("VTA callers of Async", n, 2)
 	})
+}
+
+// c03lin is the linear form a*len(base)+b.
+type c03lin struct {
+	base types.Object
+	a, b int
+}
+
+func (l c03lin) String() string {
+	if l.a == 0 || l.base == nil {
+		return itoa(l.b)
+	}
+	s := "len(" + l.base.Name() + ")"
+	if l.a != 1 {
+		s = itoa(l.a) + "*" + s
+	}
+	if l.b > 0 {
+		s += "+" + itoa(l.b)
+	} else if l.b < 0 {
+		s += "-" + itoa(-l.b)
+	}
+	return s
+}
+
+func (l c03lin) plus(m c03lin) (c03lin, bool) {
+	if l.base != nil && m.base != nil && l.base != m.base {
+		return l, false
+	}
+	if l.base == nil {
+		l.base = m.base
+	}
+	l.a += m.a
+	l.b += m.b
+	return l, true
+}
+
+// c03LenForm: the number of iterations of `range e` (e a slice or an integer) as a linear form in the length of one slice
+// that the function does not reassign.
+func c03LenForm(f *Func, e ast.Expr, depth int) (c03lin, bool) {
+	e = ast.Unparen(e)
+	if depth > 6 {
+		return c03lin{}, false
+	}
+	if k, ok := f.ConstInt(e); ok {
+		return c03lin{b: int(k)}, true
+	}
+	single := func(id *ast.Ident) (ast.Expr, bool, bool) { // definition, never written, ok
+		o := f.ObjOf(id)
+		if o == nil {
+			return nil, false, false
+		}
+		ws := f.Root().writesToVar(f.Root().Body, o, true)
+		if len(ws) == 0 {
+			return nil, true, true
+		}
+		if len(ws) == 1 {
+			if as, isAs := ws[0].(*ast.AssignStmt); isAs && len(as.Lhs) == 1 && len(as.Rhs) == 1 && as.Tok == token.DEFINE {
+				return as.Rhs[0], false, true
+			}
+		}
+		return nil, false, false
+	}
+	t := f.TypeOf(e)
+	if t == nil {
+		return c03lin{}, false
+	}
+	if b, isB := t.Underlying().(*types.Basic); isB && b.Info()&types.IsInteger != 0 {
+		switch x := e.(type) {
+		case *ast.CallExpr:
+			if f.BuiltinName(x) == "len" && len(x.Args) == 1 {
+				return c03LenForm(f, x.Args[0], depth+1)
+			}
+		case *ast.BinaryExpr:
+			if k, ok := f.ConstInt(x.Y); ok && (x.Op == token.ADD || x.Op == token.SUB) {
+				l, okl := c03LenForm(f, x.X, depth+1)
+				if x.Op == token.SUB {
+					k = -k
+				}
+				l.b += int(k)
+				return l, okl
+			}
+		case *ast.Ident:
+			if def, _, ok := single(x); ok && def != nil {
+				return c03LenForm(f, def, depth+1)
+			}
+		}
+		return c03lin{}, false
+	}
+	if _, isSl := t.Underlying().(*types.Slice); !isSl {
+		return c03lin{}, false
+	}
+	switch x := e.(type) {
+	case *ast.Ident:
+		def, never, ok := single(x)
+		if !ok {
+			return c03lin{}, false
+		}
+		if never {
+			return c03lin{base: f.ObjOf(x), a: 1}, true
+		}
+		return c03LenForm(f, def, depth+1)
+	case *ast.SliceExpr:
+		if x.High != nil || x.Max != nil {
+			return c03lin{}, false
+		}
+		l, ok := c03LenForm(f, x.X, depth+1)
+		if x.Low != nil {
+			k, isK := f.ConstInt(x.Low)
+			if !isK {
+				return c03lin{}, false
+			}
+			l.b -= int(k)
+		}
+		return l, ok
+	}
+	return c03lin{}, false
+}
+
+// c03TokenCount counts, for the function f that starts notifying goroutines and joins them over channel ch, the tokens
+// that are sent on ch and the tokens that are received before f returns.  It answers ok only when every send, every
+// receive and every invocation of a function value that sends is accounted for: sends are unconditional top-level
+// statements of a literal (or of a literal it defers/starts on the spot), producers and receives are top-level statements
+// of f or of one range loop at the top level of f, and no return lies between the go statement and a receive site.
+func c03TokenCount(f *Func, g *Graph, gs *ast.GoStmt, ch types.Object) (prod, cons c03lin, ok bool) {
+	if f.Lit != nil {
+		return
+	}
+	lits := f.AllLits()
+	litOf := func(e ast.Expr) *Func {
+		fl, isFL := ast.Unparen(e).(*ast.FuncLit)
+		if !isFL {
+			return nil
+		}
+		for _, l := range lits {
+			if l.Lit == fl {
+				return l
+			}
+		}
+		return nil
+	}
+	// literals bound once to a local
+	bound := map[types.Object]*Func{}
+	for _, l := range lits {
+		if as, isAs := l.Parent.ParentOf(l.Lit).(*ast.AssignStmt); isAs && len(as.Lhs) == 1 && len(as.Rhs) == 1 {
+			if o := l.Parent.ObjOf(as.Lhs[0]); o != nil && len(f.writesToVar(f.Body, o, true)) == 1 {
+				bound[o] = l
+			}
+		}
+	}
+	unitOf := func(owner *Func, call *ast.CallExpr) *Func {
+		if l := litOf(call.Fun); l != nil {
+			return l
+		}
+		if o := owner.ObjOf(call.Fun); o != nil {
+			return bound[o]
+		}
+		return nil
+	}
+	accounted := map[ast.Node]bool{}
+	memo := map[*Func]int{}
+	var tokensOf func(l *Func, depth int) int
+	tokensOf = func(l *Func, depth int) int {
+		if v, seen := memo[l]; seen {
+			return v
+		}
+		if depth > 4 {
+			return -1
+		}
+		n := 0
+		for _, st := range l.Body.List {
+			var call *ast.CallExpr
+			switch x := st.(type) {
+			case *ast.SendStmt:
+				if l.ObjOf(x.Chan) == ch {
+					n++
+					accounted[x] = true
+				}
+			case *ast.DeferStmt:
+				call = x.Call
+			case *ast.GoStmt:
+				call = x.Call
+			case *ast.ExprStmt:
+				call, _ = ast.Unparen(x.X).(*ast.CallExpr)
+			}
+			if call != nil {
+				if u := unitOf(l, call); u != nil && u != l {
+					t := tokensOf(u, depth+1)
+					if t < 0 {
+						memo[l] = -1
+						return -1
+					}
+					if t > 0 {
+						accounted[call] = true
+						n += t
+					}
+				}
+			}
+		}
+		memo[l] = n
+		return n
+	}
+	var recvSites []int
+	good := true
+	site := func(st ast.Stmt, mult c03lin) {
+		var call *ast.CallExpr
+		var recv ast.Expr
+		switch x := st.(type) {
+		case *ast.GoStmt:
+			call = x.Call
+		case *ast.ExprStmt:
+			call, _ = ast.Unparen(x.X).(*ast.CallExpr)
+			recv = x.X
+		case *ast.AssignStmt:
+			if len(x.Rhs) == 1 {
+				recv = x.Rhs[0]
+			}
+		}
+		if call != nil {
+			if u := unitOf(f, call); u != nil {
+				t := tokensOf(u, 0)
+				if t < 0 {
+					good = false
+				} else if t > 0 {
+					accounted[call] = true
+					var okp bool
+					if prod, okp = prod.plus(c03lin{base: mult.base, a: mult.a * t, b: mult.b * t}); !okp {
+						good = false
+					}
+				}
+			}
+		}
+		if recv != nil {
+			if u, isU := ast.Unparen(recv).(*ast.UnaryExpr); isU && u.Op == token.ARROW && f.ObjOf(u.X) == ch {
+				accounted[u] = true
+				var okp bool
+				if cons, okp = cons.plus(mult); !okp {
+					good = false
+				}
+			}
+		}
+	}
+	for _, st := range f.Body.List {
+		if rs, isR := st.(*ast.RangeStmt); isR {
+			mult, okm := c03LenForm(f, rs.X, 0)
+			if !okm {
+				continue // whatever it touches stays unaccounted
+			}
+			before := cons
+			for _, inner := range rs.Body.List {
+				site(inner, mult)
+			}
+			if cons != before {
+				recvSites = append(recvSites, g.VertexOf(rs.X))
+			}
+			continue
+		}
+		before := cons
+		site(st, c03lin{b: 1})
+		if cons != before {
+			recvSites = append(recvSites, g.VertexOf(st))
+		}
+	}
+	// everything that touches the channel or a producing function value is accounted for
+	ast.Inspect(f.Body, func(n ast.Node) bool {
+		switch x := n.(type) {
+		case *ast.SendStmt:
+			if id := c03identOf(x.Chan); id != nil && f.Info().Uses[id] == ch && !accounted[x] {
+				good = false
+			}
+		case *ast.UnaryExpr:
+			if id := c03identOf(x.X); x.Op == token.ARROW && id != nil && f.Info().Uses[id] == ch && !accounted[x] {
+				good = false
+			}
+		case *ast.CallExpr:
+			if id := c03identOf(x.Fun); id != nil {
+				if o := f.Info().Uses[id]; o != nil && bound[o] != nil && !accounted[x] {
+					if t, seen := memo[bound[o]]; !seen || t != 0 {
+						if !seen && !c03Touches(f, bound[o], ch) {
+							break
+						}
+						good = false
+					}
+				}
+			}
+			if l := litOf(x.Fun); l != nil && !accounted[x] {
+				if t, seen := memo[l]; (!seen || t != 0) && c03Touches(f, l, ch) {
+					good = false
+				}
+			}
+		}
+		return true
+	})
+	// a literal that touches the channel and is neither bound to a local nor invoked on the spot escapes the count
+	for _, l := range lits {
+		if !c03Touches(f, l, ch) {
+			continue
+		}
+		isBound := false
+		for _, b := range bound {
+			if b == l {
+				isBound = true
+			}
+		}
+		_, invoked := l.Parent.ParentOf(l.Lit).(*ast.CallExpr)
+		if !isBound && !invoked {
+			good = false
+		}
+	}
+	// a producing function value that is passed on or stored is not counted
+	for o, l := range bound {
+		if !c03Touches(f, l, ch) {
+			continue
+		}
+		ast.Inspect(f.Body, func(n ast.Node) bool {
+			if ce, isCall := n.(*ast.CallExpr); isCall {
+				for _, a := range ce.Args {
+					if id := c03identOf(a); id != nil && f.Info().Uses[id] == o {
+						good = false
+					}
+				}
+			}
+			if as, isAs := n.(*ast.AssignStmt); isAs {
+				for _, r := range as.Rhs {
+					if id := c03identOf(r); id != nil && f.Info().Uses[id] == o {
+						good = false
+					}
+				}
+			}
+			return true
+		})
+	}
+	if len(recvSites) == 0 {
+		good = false
+	}
+	gv := g.VertexOf(gs)
+	for _, rv := range recvSites {
+		rv := rv
+		if rv < 0 {
+			good = false
+			continue
+		}
+		if okp, _ := g.MustPass(gv, g.Exits, func(v int) bool { return v == rv }); !okp {
+			good = false
+		}
+	}
+	return prod, cons, good
+}
+
+func c03identOf(e ast.Expr) *ast.Ident {
+	id, _ := ast.Unparen(e).(*ast.Ident)
+	return id
+}
+
+// c03Touches: literal l (nested literals included) mentions the object o.
+func c03Touches(f *Func, l *Func, o types.Object) bool {
+	found := false
+	ast.Inspect(l.Body, func(m ast.Node) bool {
+		if id, isID := m.(*ast.Ident); isID && f.Info().Uses[id] == o {
+			found = true
+		}
+		return true
+	})
+	return found
+}
+
+// c03QueueStruct: the named struct type of the backlog when it is no longer a slice (nil otherwise).
+func c03QueueStruct(queue *types.Var) *types.Named {
+	t := queue.Type()
+	if p, isP := t.Underlying().(*types.Pointer); isP {
+		t = p.Elem()
+	}
+	n := namedOf(t)
+	if n == nil {
+		return nil
+	}
+	if _, isS := n.Underlying().(*types.Struct); !isS {
+		return nil
+	}
+	return n
+}
+
+func c03CallsQueueMethod(f *Func, queue *types.Var) bool {
+	for _, call := range f.AllCalls(f.Body, false) {
+		if sel, ok := ast.Unparen(call.Fun).(*ast.SelectorExpr); ok && f.IsField(sel.X, queue) {
+			return true
+		}
+	}
+	return false
+}
+
+// c03MentionsQueue: e reads the queue field, or a local that some assignment of f computes from it.
+func c03MentionsQueue(f *Func, e ast.Expr, queue *types.Var) bool {
+	found := false
+	var visit func(n ast.Node, depth int)
+	visit = func(n ast.Node, depth int) {
+		ast.Inspect(n, func(x ast.Node) bool {
+			switch y := x.(type) {
+			case *ast.SelectorExpr:
+				if f.IsField(y, queue) {
+					found = true
+				}
+			case *ast.Ident:
+				if o := f.ObjOf(y); o != nil && depth < 2 {
+					for _, w := range Writes(f.Body, false) {
+						if w.RHS != nil && f.ObjOf(w.LHS) == o {
+							if _, isID := ast.Unparen(w.LHS).(*ast.Ident); isID {
+								visit(w.RHS, depth+1)
+							}
+						}
+					}
+				}
+			}
+			return true
+		})
+	}
+	visit(e, 0)
+	return found
+}
+
+// c03EmptyViaDequeue: the atom says X == nil where X is, at that point, the result of a method of the queue's own type
+// called on the queue field, and that method returns nil only under a test that says the queue holds nothing (its
+// element count — a field the method decrements and another method of the type increments — or the length of its
+// buffer compared with zero).
+func c03EmptyViaDequeue(c *Ctx, f *Func, g *Graph, a Atom, queue *types.Var) bool {
+	return AtomSaysNil(a, true, func(e ast.Expr) bool {
+		id, isID := ast.Unparen(e).(*ast.Ident)
+		if !isID {
+			return false
+		}
+		def := f.reachingDef(g, id)
+		if def == nil {
+			return false
+		}
+		call, isCall := ast.Unparen(def).(*ast.CallExpr)
+		if !isCall {
+			return false
+		}
+		sel, isSel := ast.Unparen(call.Fun).(*ast.SelectorExpr)
+		if !isSel || !f.IsField(sel.X, queue) {
+			return false
+		}
+		fn := f.Callee(call)
+		if fn == nil {
+			return false
+		}
+		m := f.Prog.FuncOf(fn)
+		if m == nil || m.Recv() == nil {
+			return false
+		}
+		return c03NilOnlyWhenEmpty(c, m)
+	})
+}
+
+func c03MethodsOf(c *Ctx, t *types.Named) []*Func {
+	var out []*Func
+	for _, f := range c.P.FuncsIn(pJ) {
+		if f.Lit != nil || f.Recv() == nil {
+			continue
+		}
+		rt := f.Recv().Type()
+		if p, isP := rt.Underlying().(*types.Pointer); isP {
+			rt = p.Elem()
+		}
+		if namedOf(rt) == t {
+			out = append(out, f)
+		}
+	}
+	return out
+}
+
+func c03NilOnlyWhenEmpty(c *Ctx, m *Func) bool {
+	recv := m.Recv()
+	rt := recv.Type()
+	if p, isP := rt.Underlying().(*types.Pointer); isP {
+		rt = p.Elem()
+	}
+	qT := namedOf(rt)
+	if qT == nil {
+		return false
+	}
+	g := m.Graph()
+	onRecv := func(e ast.Expr) *types.Var {
+		sel, ok := ast.Unparen(e).(*ast.SelectorExpr)
+		if !ok || m.ObjOf(sel.X) != types.Object(recv) {
+			return nil
+		}
+		fld, _ := m.ObjOf(sel).(*types.Var)
+		if fld == nil || !fld.IsField() {
+			return nil
+		}
+		return fld
+	}
+	stepped := func(fn *Func, fld *types.Var, tok token.Token) bool {
+		for _, w := range Writes(fn.Body, false) {
+			if inc, isInc := w.Stmt.(*ast.IncDecStmt); isInc && inc.Tok == tok {
+				if sel, ok := ast.Unparen(inc.X).(*ast.SelectorExpr); ok && fn.ObjOf(sel) == types.Object(fld) && fn.ObjOf(sel.X) == types.Object(fn.Recv()) {
+					return true
+				}
+			}
+		}
+		return false
+	}
+	isCount := func(fld *types.Var) bool {
+		if b, isB := fld.Type().Underlying().(*types.Basic); !isB || b.Info()&types.IsInteger == 0 {
+			return false
+		}
+		if !stepped(m, fld, token.DEC) {
+			return false
+		}
+		for _, o := range c03MethodsOf(c, qT) {
+			if o != m && stepped(o, fld, token.INC) {
+				return true
+			}
+		}
+		return false
+	}
+	saysEmpty := func(a Atom) bool {
+		x, y, op, ok := binaryCmp(a.E)
+		if !ok {
+			return false
+		}
+		z, isZ := m.ConstInt(y)
+		if !isZ || z != 0 {
+			return false
+		}
+		if !((op == token.EQL && a.Val) || (op == token.LEQ && a.Val) || (op == token.GTR && !a.Val) || (op == token.NEQ && !a.Val)) {
+			return false
+		}
+		if ce, isCe := ast.Unparen(x).(*ast.CallExpr); isCe && m.BuiltinName(ce) == "len" && len(ce.Args) == 1 {
+			fld := onRecv(ce.Args[0])
+			if fld == nil {
+				return false
+			}
+			_, isSl := fld.Type().Underlying().(*types.Slice)
+			return isSl
+		}
+		if fld := onRecv(x); fld != nil {
+			return isCount(fld)
+		}
+		return false
+	}
+	nNil := 0
+	for _, r := range m.Returns() {
+		if len(r.Results) != 1 || !isNilIdent(r.Results[0]) {
+			continue
+		}
+		nNil++
+		if !hasAtom(g.GuardsAt(g.VertexOf(r)), saysEmpty) {
+			return false
+		}
+	}
+	return nNil > 0
+}
+
+// c03RingRebase: when the backlog is a type of its own with a buffer and a head index (the index its dequeue reads
+// `buf[head]` from), a method that moves the elements into a fresh buffer and resets head to 0 must put the element at
+// head first: the copy that fills the new buffer from its start reads buf[head:].  Reading from physical index 0
+// (buf[:head], buf[:], buf) puts the elements that had wrapped around — the newest — in front of older ones whenever
+// head != 0: requests are then dispatched out of arrival order.
+func c03RingRebase(c *Ctx, qT *types.Named) {
+	st := qT.Underlying().(*types.Struct)
+	isFieldOf := func(v *types.Var) bool {
+		for i := 0; i < st.NumFields(); i++ {
+			if st.Field(i) == v {
+				return true
+			}
+		}
+		return false
+	}
+	methods := c03MethodsOf(c, qT)
+	fieldSel := func(f *Func, e ast.Expr) *types.Var {
+		sel, ok := ast.Unparen(e).(*ast.SelectorExpr)
+		if !ok {
+			return nil
+		}
+		v, _ := f.ObjOf(sel).(*types.Var)
+		if v == nil || !v.IsField() || !isFieldOf(v) {
+			return nil
+		}
+		return v
+	}
+	// buf and head: some method reads buf[head]
+	var bufF, headF *types.Var
+	ambiguous := false
+	for _, m := range methods {
+		ast.Inspect(m.Body, func(n ast.Node) bool {
+			ix, ok := n.(*ast.IndexExpr)
+			if !ok {
+				return true
+			}
+			b, h := fieldSel(m, ix.X), fieldSel(m, ix.Index)
+			if b == nil || h == nil {
+				return true
+			}
+			if _, isSl := b.Type().Underlying().(*types.Slice); !isSl {
+				return true
+			}
+			if (bufF != nil && bufF != b) || (headF != nil && headF != h) {
+				ambiguous = true
+			}
+			bufF, headF = b, h
+			return true
+		})
+	}
+	if bufF == nil || headF == nil || ambiguous {
+		return
+	}
+	for _, m := range methods {
+		c.touch(m)
+		g := m.Graph()
+		resets := false
+		var fresh []types.Object
+		for _, w := range Writes(m.Body, false) {
+			if w.RHS == nil {
+				continue
+			}
+			if fieldSel(m, w.LHS) == headF {
+				if z, isZ := m.ConstInt(w.RHS); isZ && z == 0 {
+					resets = true
+				}
+			}
+			if fieldSel(m, w.LHS) == bufF {
+				if id, isID := ast.Unparen(w.RHS).(*ast.Ident); isID && m.ObjOf(id) != nil {
+					fresh = append(fresh, m.ObjOf(id))
+				}
+			}
+		}
+		if !resets || len(fresh) == 0 {
+			continue
+		}
+		for _, call := range m.AllCalls(m.Body, false) {
+			if m.BuiltinName(call) != "copy" || len(call.Args) != 2 {
+				continue
+			}
+			// destination: the fresh buffer from its start
+			dst := ast.Unparen(call.Args[0])
+			if sl, isSl := dst.(*ast.SliceExpr); isSl {
+				if sl.Low != nil {
+					if z, isZ := m.ConstInt(sl.Low); !isZ || z != 0 {
+						continue
+					}
+				}
+				dst = ast.Unparen(sl.X)
+			}
+			isFresh := false
+			for _, o := range fresh {
+				if m.ObjOf(dst) == o {
+					isFresh = true
+				}
+			}
+			if !isFresh {
+				continue
+			}
+			key := "queue-type:rebase-puts-head-first:" + m.Name()
+			src := ast.Unparen(call.Args[1])
+			headIsZero := hasAtom(g.GuardsAt(g.VertexOf(call)), func(a Atom) bool {
+				x, y, op, ok := binaryCmp(a.E)
+				if !ok || fieldSel(m, x) != headF {
+					return false
+				}
+				z, isZ := m.ConstInt(y)
+				return isZ && z == 0 && ((op == token.EQL && a.Val) || (op == token.NEQ && !a.Val))
+			})
+			switch x := src.(type) {
+			case *ast.SliceExpr:
+				if fieldSel(m, x.X) != bufF {
+					c.Undecided(key, m, call, "the new buffer is filled from %s, which this rule does not relate to the queue's buffer", exprStr(src))
+					continue
+				}
+				switch {
+				case x.Low != nil && fieldSel(m, x.Low) == headF:
+					c.Ok(key, m, call, "the new buffer starts with buf[head:], the oldest request first")
+				case x.Low == nil || func() bool { z, isZ := m.ConstInt(x.Low); return isZ && z == 0 }():
+					c.Check(headIsZero, key, m, call, "head is reset to 0 but the new buffer is filled from physical index 0 of the old one (%s): when the ring had wrapped (head != 0) the requests that wrapped around, the newest, come out before older ones — dispatch is no longer in arrival order", exprStr(src))
+				default:
+					c.Undecided(key, m, call, "the new buffer is filled from %s: whether that is the oldest request is not decided here", exprStr(src))
+				}
+			default:
+				if fieldSel(m, src) == bufF {
+					c.Check(headIsZero, key, m, call, "head is reset to 0 but the old buffer is copied as it lies (%s): when the ring had wrapped (head != 0) the newest requests come out before older ones", exprStr(src))
+				} else {
+					c.Undecided(key, m, call, "the new buffer is filled from %s, which this rule does not relate to the queue's buffer", exprStr(src))
+				}
+			}
+		}
+	}
+}
+
+func c03Deref(t types.Type) types.Type {
+	if p, ok := t.Underlying().(*types.Pointer); ok {
+		return p.Elem()
+	}
+	return t
 }
